@@ -13,6 +13,7 @@ import IrVerif.Lemmas.NamesRename
 import IrVerif.Lemmas.NamesGen
 import IrVerif.Lemmas.NamesGenPost
 import IrVerif.Lemmas.NamesRec
+import IrVerif.Lemmas.NamesRecOrd
 namespace IrVerif.Names
 
 /-! ### C15_loop_terminates -/
@@ -922,5 +923,35 @@ theorem C15_illscoped_values (w : World) (tops : List Top) (hok : InitsOk w)
 /-- the ill-scoped witness: the free value 0 is recorded in the scope of the first sibling only; the second sibling's
 list does not contain it -/
 example : recScopes exWS.inits exTS.tr [] [] = [[3], [3, 1, 0], [3, 2]] := by decide
+
+/-- **C15_illscoped_first_holder**: 'kept' and 'first holder' for **value names** on ill-scoped models — no scoping
+hypothesis (same hypotheses as `C15_illscoped_values`), default generator.  Every list `L` of `recScopes` — the
+values recorded in the enclosing scopes when the graph was entered, followed by the values **first met** in the graph
+itself — is in the order in which NameFixPass records its members (initializers of one graph never share a name, so
+their mutual order is immaterial).  (1) A non-empty name carried by exactly one member of `L` is kept.  (2) Split `L`
+at any occurrence of `v`, `L = A ++ v :: B`, where `v` has a non-empty name: if no member in front of `v` carried
+that name, `v` keeps it — the *first* holder recorded in a scope is never renamed; if a member in front of `v`
+carried it (and this is `v`'s first occurrence), `v` is renamed.  Together with `C15_illscoped_values` this pins,
+per recorded scope, exactly which names change: those of unnamed values and of every holder of a name but the
+first.  (A value met in the graph but first met in a scope that is not visible is not a member of `L`:
+`C15_scoping_necessary`.) -/
+theorem C15_illscoped_first_holder (w : World) (tops : List Top) (hok : InitsOk w)
+    (hyp : ∀ t ∈ tops, Closed w.initOf t ∧ (allNodes t.body).Nodup) (hdisj : tops.Pairwise (TopDisj w.initOf)) :
+    ∀ t ∈ tops, ∀ L ∈ recScopes w.inits t.tr [] [],
+      KeptOn w.vname (fixModel w tops).1.vname L
+      ∧ FirstB w.vname (fixModel w tops).1.vname L
+      ∧ ∀ A v B, L = A ++ v :: B → truthy (w.vname v) = true →
+          ((∀ u ∈ A, w.vname u ≠ w.vname v) → (fixModel w tops).1.vname v = w.vname v)
+          ∧ (v ∉ A → (∃ u ∈ A, w.vname u = w.vname v) → (fixModel w tops).1.vname v ≠ w.vname v) := by
+  intro t ht L hL
+  have hiv : ∀ g u, u ∈ w.inits g ↔ w.initOf u = some g := fun g u => hok.mem_iff g u
+  obtain ⟨hk, hf⟩ := fixModel_recOrd w.inits tops w hok hiv hyp hdisj t ht L hL
+  have hinj := ((fixModel_rec w.inits tops w hok hiv hyp hdisj t ht).1 L hL).inj
+  exact ⟨hk, hf, fun A v B e h1 => first_exact hf hinj A v B e h1⟩
+
+/-- the ill-scoped witness of `C15_scoping_necessary` (names x, a, x, o): in the recorded lists `[3]`, `[3, 1, 0]`,
+`[3, 2]` every name is unique, so every value keeps its name — also value 2 of the second sibling, whose name is
+carried by the free value 0 that is met there but not recorded there -/
+example : (List.range 4).map (fixModel exWS [exTS]).1.vname = [some "x", some "a", some "x", some "o"] := by decide
 
 end IrVerif.Names
